@@ -44,10 +44,15 @@ type fakeBody struct {
 	reads   int
 	// eofWithData: deliver the final bytes together with io.EOF
 	eofWithData bool
+	// onRead, when set, runs at the start of every Read: what other goroutines do while this Read is "blocked"
+	onRead func()
 }
 
 func (b *fakeBody) Read(p []byte) (int, error) {
 	b.reads++
+	if b.onRead != nil {
+		b.onRead()
+	}
 	if b.pos >= len(b.data) {
 		if b.failEnd {
 			return 0, errFakeTransport
